@@ -1633,3 +1633,82 @@ pub fn c17_store_providers(nd: &mut Nondet) {
         }
     }
 }
+
+// ------------------------------------------------------------------------------------------ C18 peer ids
+/// digest lengths around every boundary the peer-id rules mention
+const MH_LENGTHS: [usize; 9] = [0, 1, 31, 32, 41, 42, 43, 63, 64];
+
+/// C18: litep2p's and the reference's verdict on a multihash agree, and every accepted id round-trips through
+/// bytes and a multiaddress component.
+pub fn c18_multihash(nd: &mut Nondet) {
+    let code = match nd.choose("code", 4) { 0 => 0x00u64, 1 => 0x12, 2 => 0x13, _ => nd.u64("code_raw") };
+    let n = MH_LENGTHS[nd.choose("digest_len", MH_LENGTHS.len() as u64) as usize];
+    let mut digest = vec![0u8; n];
+    if n > 0 { digest[0] = nd.u8("digest_first"); digest[n - 1] = nd.u8("digest_last"); }
+    let mh = multihash::Multihash::<64>::wrap(code, &digest).expect("fits 64 bytes");
+    let ours = PeerId::from_multihash(mh);
+    let reference = multiaddr::PeerId::try_from(mh);
+    check("c18.accepts-exactly-what-the-reference-accepts", ours.is_ok() == reference.is_ok());
+    // the rule itself: sha2-256 of any length, or identity of at most 42 bytes
+    check("c18.acceptance-rule", ours.is_ok() == (code == 0x12 || (code == 0x00 && n <= 42)));
+    if let Ok(p) = ours {
+        cover("c18.accepted");
+        check("c18.multihash-round-trip", multihash::Multihash::<64>::from(p) == mh);
+        // multiaddress component (the conversion must not panic) and back
+        let address = Multiaddr::empty().with(Protocol::Ip4(Ipv4Addr::new(10, 0, 0, 1))).with(Protocol::Tcp(1)).with(Protocol::P2p(p.into()));
+        check("c18.multiaddr-round-trip", PeerId::try_from_multiaddr(&address) == Some(p));
+        check("c18.to-multiaddr-peer-id", p.to_multiaddr_peer_id().is_ok());
+        if code < 0x80 {
+            // bytes: [code, len, digest...]
+            let bytes = p.to_bytes();
+            check("c18.bytes-layout", bytes.len() == n + 2 && bytes[0] == code as u8 && bytes[1] == n as u8);
+            check("c18.bytes-round-trip", PeerId::from_bytes(&bytes).ok() == Some(p));
+            check("c18.vec-round-trip", PeerId::try_from(bytes.clone()).ok() == Some(p));
+            check("c18.reference-parses-our-bytes", multiaddr::PeerId::from_bytes(&bytes).is_ok());
+        }
+    } else {
+        cover("c18.rejected");
+    }
+}
+
+/// C18: the peer id of a protobuf-encoded key: identity multihash up to 42 bytes, SHA-256 beyond.
+pub fn c18_key_blob(nd: &mut Nondet) {
+    const LENGTHS: [usize; 8] = [0, 1, 36, 41, 42, 43, 44, 100];
+    let n = LENGTHS[nd.choose("blob_len", LENGTHS.len() as u64) as usize];
+    let mut blob = vec![0u8; n];
+    if n > 0 { blob[0] = 8; blob[n - 1] = 7; }
+    let p = PeerId::from_public_key_protobuf(&blob);
+    let mh = multihash::Multihash::<64>::from(p);
+    if n <= 42 {
+        cover("c18.inline");
+        check("c18.short-key-is-inlined", mh.code() == 0x00 && mh.digest() == &blob[..]);
+    } else {
+        cover("c18.hashed");
+        check("c18.long-key-is-sha256", mh.code() == 0x12 && mh.digest().len() == 32);
+        check("c18.long-key-digest", mh == multihash_codetable::Code::Sha2_256.digest(&blob));
+    }
+    check("c18.derived-id-is-valid-for-the-reference", multiaddr::PeerId::try_from(mh).is_ok());
+    check("c18.derived-id-round-trips", PeerId::from_bytes(&p.to_bytes()).ok() == Some(p));
+}
+
+/// C18/C19: peer id bytes from the network: header bytes symbolic, every digest length, optional trailing byte.
+pub fn c18_from_bytes(nd: &mut Nondet) {
+    let mut bytes: Vec<u8> = Vec::new();
+    bytes.push(nd.u8("code0"));
+    if nd.bool("two_byte_code") { bytes.push(nd.u8("code1")); }
+    bytes.push(nd.u8("size"));
+    let n = MH_LENGTHS[nd.choose("digest_len", MH_LENGTHS.len() as u64) as usize];
+    for _ in 0..n { bytes.push(0); }
+    if nd.bool("trailing") { bytes.push(1); }
+    let ours = PeerId::from_bytes(&bytes);
+    let reference = multiaddr::PeerId::from_bytes(&bytes);
+    check("c18.from_bytes-accepts-exactly-what-the-reference-accepts", ours.is_ok() == reference.is_ok());
+    match ours {
+        Ok(p) => {
+            cover("c18.bytes.accepted");
+            check("c18.accepted-bytes-are-canonical", p.to_bytes() == bytes);
+            let _component: multiaddr::PeerId = p.into();       // must not panic
+        }
+        Err(_) => cover("c18.bytes.rejected"),
+    }
+}
